@@ -13,13 +13,14 @@
 
    FULL STATEMENT of the property's first clause (lexeme agreement):
        forall s, in_quantifier s = true -> lexemes_lang s = lexemes_syn s.
-   It is FALSE for today's code in exactly three ways, each witnessed below (C18_*_refuted) and reproduced
-   on the real lexers (KNOWN-FINDING of checks/c18.py): (B) ':' as replacement of '#' in based literals,
-   (A) the reserved words assume_guarantee / restrict_guarantee before a tick, (D) CR LF between two ticks.
-   `known_difference s` is the boolean that delimits these three.  A fourth way, (C) a non-integer abstract
-   literal merged with a bit string (finding F41), was repaired by commit f2c0e80: the model follows the
-   repaired merge_bit_string_literals, the code before it is SynLexer.merge_old
-   (C18_merge_any_literal_old_refuted).  The corrected statement
+   It is still FALSE for today's code in one way, witnessed below (C18_crlf_character_refuted) and reproduced on
+   the real lexers (KNOWN-FINDING F43 of checks/c18.py): (D) CR LF between two ticks.  `known_difference s`
+   (= has_crlf_char s) delimits it.  Three further ways found by this development have been repaired in the
+   code, and the models follow the repaired code: (B, F40, commit bba3236) ':' as replacement of '#' in based
+   literals — C18_colon_based_literal_agree; (C, F41, commit f2c0e80) a non-integer abstract literal merged with
+   a bit string — C18_merge_any_literal_old_refuted against SynLexer.merge_old; (A, F42, commit 9360ea7) the
+   reserved words assume_guarantee / restrict_guarantee before a tick — C18_psl_reserved_word_old_refuted against
+   the old keyword table.  The corrected statement
        forall s, in_quantifier s = true -> known_difference s = false -> lexemes_lang s = lexemes_syn s
    is PROVED FOR ALL INPUTS (C18_lexemes_agree), through the common step-wise characterisation: each lexer
    realises split_spec when clean (C18_lang_is_spec_eol over the reader model of vhdl_lang, C18_syn_is_spec_eol
@@ -53,22 +54,21 @@ Print Assumptions C18_bounded_example.
 
 (* ---------- step-wise characterisation: each lexer realises split_spec when clean ---------- *)
 (* vhdl_syntax half, ALL inputs: on an input that is clean for the model of vhdl_syntax's tokenizer, has no
-   grave accent and no CR and which does not hold the two PSL reserved words (difference A), the merged token
-   stream spells exactly
+   grave accent and no CR, the merged token stream spells exactly
    the lexemes of the reference splitter.  (Proved arm by arm: trivia = separators and comments; identifiers and
    reserved words; abstract literals; bit strings through merge_bit_string_literals; character literal versus
    tick; strings; extended identifiers; every delimiter.) *)
 Theorem C18_syn_is_spec : forall s,
-  clean_syn s = true -> no_directive s = true -> no_cr s = true -> has_psl_word s = false ->
+  clean_syn s = true -> no_directive s = true -> no_cr s = true ->
   split_spec LangLexer.keywords_2008 s = lexemes_syn s.
 Proof. exact syn_is_spec. Qed.
 Check C18_syn_is_spec : forall s,
-  clean_syn s = true -> no_directive s = true -> no_cr s = true -> has_psl_word s = false ->
+  clean_syn s = true -> no_directive s = true -> no_cr s = true ->
   split_spec LangLexer.keywords_2008 s = lexemes_syn s.
 Print Assumptions C18_syn_is_spec.
 (* the hypotheses hold of `x"A" 12sb"0"'a'('b')'c --x LF 16#F#e1?/=\a\"q""":=1.5` (14 lexemes) *)
 Example C18_syn_is_spec_example : clean_syn ex_syn = true /\ no_directive ex_syn = true /\ no_cr ex_syn = true
-  /\ has_psl_word ex_syn = false
+
   /\ length (match lexemes_syn ex_syn with Some l => l | None => [] end) = 14%nat.
 Proof. exact ex_syn_ok. Qed.
 Print Assumptions C18_syn_is_spec_example.
@@ -76,29 +76,28 @@ Print Assumptions C18_syn_is_spec_example.
 (* the same for inputs that may hold CR (as separator, inside comments, strings, character literals): a line
    break inside a lexeme reads as LF *)
 Theorem C18_syn_is_spec_eol : forall s,
-  clean_syn s = true -> no_directive s = true -> has_psl_word s = false ->
+  clean_syn s = true -> no_directive s = true ->
   option_map (map norm_eol) (split_spec LangLexer.keywords_2008 s) = lexemes_syn s.
 Proof. exact syn_is_spec_eol. Qed.
 Print Assumptions C18_syn_is_spec_eol.
 Example C18_syn_is_spec_eol_example : clean_syn ex_syn_eol = true /\ no_directive ex_syn_eol = true
-  /\ has_psl_word ex_syn_eol = false
+
   /\ lexemes_syn ex_syn_eol = Some [[120]; [58; 61]; [34; 97; 10; 98; 34]; [40]; [39; 10; 39]; [41]].
 Proof. exact ex_syn_eol_ok. Qed.
 Print Assumptions C18_syn_is_spec_eol_example.
 
-(* vhdl_lang half, ALL inputs: on a Latin-1 input without CR, grave accent, `vhdl_ls` and `digit ':' alnum`
-   (difference B) on which the model of vhdl_lang's tokenizer pushes no diagnostic, the texts between the
+(* vhdl_lang half, ALL inputs: on a Latin-1 input without CR, grave accent and `vhdl_ls` on which the model of vhdl_lang's tokenizer pushes no diagnostic, the texts between the
    positions of its tokens are exactly the lexemes of the reference splitter.  (Proved through the reader
    invariant of C11: every loop of the tokenizer against span / drop_line / drop_block / quoted_rest on the
    remaining text; pop_raw = skip_gap + lexeme_step; Tokenizer::pop = pop_raw without pragma comments.) *)
 Theorem C18_lang_is_spec : forall s : list N,
   latin1 s = true -> clean_lang s = true -> no_directive s = true -> no_pragma s = true ->
-  no_cr s = true -> has_colon_literal s = false ->
+  no_cr s = true ->
   lexemes_lang s = split_spec LangLexer.keywords_2008 s.
 Proof. exact lang_is_spec. Qed.
 Check C18_lang_is_spec : forall s : list N,
   latin1 s = true -> clean_lang s = true -> no_directive s = true -> no_pragma s = true ->
-  no_cr s = true -> has_colon_literal s = false ->
+  no_cr s = true ->
   lexemes_lang s = split_spec LangLexer.keywords_2008 s.
 Print Assumptions C18_lang_is_spec.
 
@@ -106,7 +105,7 @@ Print Assumptions C18_lang_is_spec.
    CR LF inside a lexeme reads as LF; tick CR LF tick (difference D) is excluded *)
 Theorem C18_lang_is_spec_eol : forall s : list N,
   latin1 s = true -> clean_lang s = true -> no_directive s = true -> no_pragma s = true ->
-  has_colon_literal s = false -> has_crlf_char s = false ->
+  has_crlf_char s = false ->
   lexemes_lang s = option_map (map norm_eol) (split_spec LangLexer.keywords_2008 s).
 Proof. exact lang_is_spec_eol. Qed.
 Print Assumptions C18_lang_is_spec_eol.
@@ -116,7 +115,7 @@ Theorem C18_split_spec_normalisation : forall kws s, has_crlf_char s = false ->
 Proof. exact split_spec_ne. Qed.
 Print Assumptions C18_split_spec_normalisation.
 
-(* LEXEME AGREEMENT — the property's first clause with the three differences of today's code excluded:
+(* LEXEME AGREEMENT — the property's first clause with the one remaining difference of today's code (D) excluded:
    for every Latin-1 source that is lexically clean for both front ends and holds neither a tool directive nor
    a `vhdl_ls` pragma, the two front ends split it into the same sequence of lexemes (bit strings merged). *)
 Theorem C18_lexemes_agree : forall s,
@@ -144,6 +143,15 @@ Example C18_lexemes_agree_example_eol : in_quantifier ex_eol = true /\ known_dif
 Proof. exact ex_eol_ok. Qed.
 Print Assumptions C18_lexemes_agree_example_eol.
 
+(* a text holding both repaired differences, `x := 16:FF: & assume_guarantee'a' range 0 to 1:= 1`, is inside the
+   theorem's hypotheses now *)
+Example C18_lexemes_agree_example_repaired : in_quantifier ex_repaired = true /\ known_difference ex_repaired = false
+  /\ lexemes_lang ex_repaired
+     = Some [[120]; [58; 61]; [49; 54; 58; 70; 70; 58]; [38]; ASSUME_G; [39; 97; 39]; [114; 97; 110; 103; 101]; [48];
+             [116; 111]; [49]; [58; 61]; [49]].
+Proof. exact ex_repaired_ok. Qed.
+Print Assumptions C18_lexemes_agree_example_repaired.
+
 (* ---------- F13: the tokenizer of vhdl_syntax before commit 5ee4d03 ---------- *)
 (* `1:= ` (from `range 0 to 1:= 1`, legal VHDL): clean for vhdl_lang, which splits `1` `:=`; the old
    vhdl_syntax tokenizer read an unterminated based literal `1:`; the repaired one agrees with vhdl_lang *)
@@ -154,16 +162,21 @@ Theorem C18_clean_mismatch_old_refuted :
 Proof. exact clean_mismatch_old. Qed.
 Print Assumptions C18_clean_mismatch_old_refuted.
 
-(* ---------- the literal property is false on today's code: three witnesses ---------- *)
+(* ---------- the literal property is still false on today's code: one witness; the repaired ones ---------- *)
 Theorem C18_lexemes_agree_refuted :
   exists s, in_quantifier s = true /\ lexemes_lang s <> lexemes_syn s.
-Proof. exists w_colon. exact (proj1 mismatch_colon). Qed.
+Proof. exists w_crlf. exact (proj1 mismatch_crlf). Qed.
 Print Assumptions C18_lexemes_agree_refuted.
-(* (B) `16:FF:` — vhdl_lang: `16` `:` `FF` `:`; vhdl_syntax: one based literal (LRM 15.10) *)
-Theorem C18_colon_based_literal_refuted : mismatch w_colon
-  /\ lexemes_lang w_colon = Some [[49; 54]; [58]; [70; 70]; [58]] /\ lexemes_syn w_colon = Some [w_colon].
-Proof. exact mismatch_colon. Qed.
-Print Assumptions C18_colon_based_literal_refuted.
+(* (D, open F43) tick CR LF tick — vhdl_lang reads the character literal of the normalised text *)
+Theorem C18_crlf_character_refuted : mismatch w_crlf
+  /\ lexemes_lang w_crlf = Some [[39; 10; 39]] /\ lexemes_syn w_crlf = Some [[39]; [39]].
+Proof. exact mismatch_crlf. Qed.
+Print Assumptions C18_crlf_character_refuted.
+(* (B, F40, repaired by bba3236) `16:FF:` is one based literal for both lexers (LRM 15.10) *)
+Theorem C18_colon_based_literal_agree :
+  lang_result w_colon = Some (true, [w_colon]) /\ syn_result w_colon = Some (true, [w_colon]).
+Proof. exact colon_based_literal_agree. Qed.
+Print Assumptions C18_colon_based_literal_agree.
 (* (C, F41) `1.5x"0"` — merge_bit_string_literals before commit f2c0e80 merged the real literal into a bit
    string literal although the input is clean for both; the repaired merge agrees with vhdl_lang *)
 Theorem C18_merge_any_literal_old_refuted :
@@ -172,18 +185,16 @@ Theorem C18_merge_any_literal_old_refuted :
   /\ syn_result w_merge = Some (true, [[49; 46; 53]; [120; 34; 48; 34]]).
 Proof. exact merge_any_literal_old. Qed.
 Print Assumptions C18_merge_any_literal_old_refuted.
-(* (A) `assume_guarantee'a'` — a reserved word only for vhdl_lang: character literal vs attribute tick *)
-Theorem C18_psl_reserved_word_refuted : mismatch w_psl
-  /\ lexemes_lang w_psl = Some [ASSUME_G; [39; 97; 39]] /\ lexemes_syn w_psl = Some [ASSUME_G; [39]; [97]; [39]].
-Proof. exact mismatch_psl. Qed.
-Print Assumptions C18_psl_reserved_word_refuted.
-(* (D) tick CR LF tick — vhdl_lang reads the character literal of the normalised text *)
-Theorem C18_crlf_character_refuted : mismatch w_crlf
-  /\ lexemes_lang w_crlf = Some [[39; 10; 39]] /\ lexemes_syn w_crlf = Some [[39]; [39]].
-Proof. exact mismatch_crlf. Qed.
-Print Assumptions C18_crlf_character_refuted.
-(* each witness is inside `known_difference` *)
-Theorem C18_witnesses_are_known : known_difference w_colon = true
-  /\ known_difference w_psl = true /\ known_difference w_crlf = true.
+(* (A, F42) `assume_guarantee'a'` — with the keyword table before commit 9360ea7 the word was an identifier for
+   vhdl_syntax and the tick an attribute tick; now both read a character literal *)
+Theorem C18_psl_reserved_word_old_refuted :
+  lang_result w_psl = Some (true, [ASSUME_G; [39; 97; 39]])
+  /\ syn_result_kw_old w_psl = Some (true, [ASSUME_G; [39]; [97]; [39]])
+  /\ syn_result w_psl = Some (true, [ASSUME_G; [39; 97; 39]]).
+Proof. exact psl_reserved_word_old. Qed.
+Print Assumptions C18_psl_reserved_word_old_refuted.
+(* only the open witness is inside `known_difference` *)
+Theorem C18_witnesses_are_known : known_difference w_crlf = true /\ known_difference w_colon = false
+  /\ known_difference w_merge = false /\ known_difference w_psl = false.
 Proof. exact witnesses_known. Qed.
 Print Assumptions C18_witnesses_are_known.
